@@ -58,7 +58,7 @@ func windowsB() []window {
 
 // offsets (ms from the base) at which every line of every stream is stored: each window has samples that only it
 // contains, so a stale time bound changes the result
-var offsetsMs = []int64{10_000, 70_000, 150_000, 250_000, 300_200, 301_500}
+var offsetsMs = []int64{10_000, 150_000, 250_000, 300_200, 301_500}
 
 type stmt struct {
 	SQL  string
@@ -105,6 +105,8 @@ func (d *recDB) QueryCtx(ctx context.Context, q string, args ...any) (*sql.Rows,
 	d.mu.Unlock()
 	var rows *sql.Rows
 	var err error
+	execMu.Lock()
+	defer execMu.Unlock()
 	if force {
 		rows, err = d.forceDB.QueryCtx(ctx, q, args...)
 	} else if d.dry {
@@ -137,6 +139,9 @@ func (d *recDB) end() []stmt {
 	d.ctx = nil
 	return r
 }
+
+// chsql executions are serialised (several Tail goroutines share the store)
+var execMu sync.Mutex
 
 type X struct {
 	W       *e2e.World
@@ -230,14 +235,17 @@ var logStreams = []map[string]string{
 }
 
 var logLines = []string{
-	"x", "y", "x1", "x23", "zx", "plain", "PLAIN", "Plain text", "a.b", "axb", "A.B", "a-b", "a|b", "a", "ab", "AB",
-	`100%_done\`, "100%", "100x_done", "it's", "x'", "'", "tab\there", "z99", "2x", "x 25", "12", "12345",
-	`{"y":"1","c":"d","x":3,"f":2.5}`, `{"y":{"z":"w"},"w":[7],"x":"598"}`, `{"y":"2","x":1}`,
-	`y=1 c=d x=3`, `y="two words" x=7`, "12 abc", "abc9", "a+b", `a\.b`, "a\\", "%", "_", "a_b", "a%b", "(?i)ab", "a$",
-	"x.y", "[x]", "^x", "x\ny", "été", "ÉTÉ",
+	// the first lines are also stored in the sparse streams and around base B
+	"x", "plain", "PLAIN", "a.b", "axb", `{"y":"1","c":"d","x":3,"f":2.5}`, `y=1 c=d x=3`, "x23", "(?i)ab", "ab", "AB", "A.B", "[x]", "x.y",
+	"x1", "Plain text", "a-b", "a|b", `100%_done\`, "100%", "100x_done", "it's", "x'", "'", "tab\there", "z99", "2x", "12345",
+	`{"y":{"z":"w"},"w":[7],"x":"598"}`, `{"y":"2","x":1}`, `y="two words" x=7`, "12 abc", "a+b", `a\.b`, "a\\", "a_b", "a%b", "a$",
+	"^x", "été", "ÉTÉ",
 }
 
-func lokiPush(w *e2e.World, streams []map[string]string, lines []string, base time.Time, offs []int64) error {
+// lokiPush stores every line at every offset in the first `full` streams and the first 6 lines in the others; it
+// returns the number of samples.
+func lokiPush(w *e2e.World, streams []map[string]string, full int, lines []string, base time.Time, offs []int64) (int, error) {
+	n := 0
 	type pstream struct {
 		Stream map[string]string `json:"stream"`
 		Values [][2]string       `json:"values"`
@@ -249,6 +257,10 @@ func lokiPush(w *e2e.World, streams []map[string]string, lines []string, base ti
 		ps := pstream{Stream: s}
 		for oi, o := range offs {
 			for li, l := range lines {
+				if si >= full && li >= 6 {
+					break
+				}
+				n++
 				ts := base.UnixNano() + o*1e6 + int64(li)*1_000_003 + int64(si)*17 + int64(oi)
 				ps.Values = append(ps.Values, [2]string{fmt.Sprint(ts), l})
 			}
@@ -258,9 +270,9 @@ func lokiPush(w *e2e.World, streams []map[string]string, lines []string, base ti
 	raw, _ := json.Marshal(body)
 	code, resp := w.Push("POST", "/loki/api/v1/push", "application/json", raw, nil)
 	if code/100 != 2 {
-		return fmt.Errorf("loki push: %d %s", code, resp)
+		return 0, fmt.Errorf("loki push: %d %s", code, resp)
 	}
-	return nil
+	return n, nil
 }
 
 type spanSpec struct {
@@ -352,17 +364,23 @@ func profPush(w *e2e.World, base time.Time) error {
 func (x *X) populate(live bool) error {
 	w := x.W
 	want := map[string]int{}
-	for _, b := range []time.Time{baseA, baseB} {
-		if err := lokiPush(w, logStreams, logLines, b, offsetsMs); err != nil {
+	for i, b := range []time.Time{baseA, baseB} {
+		lines := logLines
+		if i == 1 {
+			lines = logLines[:14]
+		}
+		n, err := lokiPush(w, logStreams, 3, lines, b, offsetsMs)
+		if err != nil {
 			return err
 		}
-		want["samples_v3"] += len(logStreams) * len(logLines) * len(offsetsMs)
+		want["samples_v3"] += n
 	}
 	// the day before base B, so that the series exist on both days (as they would with a continuously writing agent)
-	if err := lokiPush(w, logStreams, logLines[:3], baseB.Add(-40*time.Minute), []int64{0}); err != nil {
+	n, err := lokiPush(w, logStreams, 3, logLines[:3], baseB.Add(-40*time.Minute), []int64{0})
+	if err != nil {
 		return err
 	}
-	want["samples_v3"] += len(logStreams) * 3
+	want["samples_v3"] += n
 	if err := spansPush(w, baseA); err != nil {
 		return err
 	}
@@ -378,10 +396,11 @@ func (x *X) populate(live bool) error {
 		for _, o := range []int64{-240_000, -60_000, -2_000, 500, 1_200, 1_900, 2_600, 3_300, 4_000, 4_700, 5_400} {
 			offs = append(offs, o)
 		}
-		if err := lokiPush(w, logStreams, logLines, x.Now, offs); err != nil {
+		n, err := lokiPush(w, logStreams, 2, logLines[:14], x.Now, offs)
+		if err != nil {
 			return err
 		}
-		want["samples_v3"] += len(logStreams) * len(logLines) * len(offs)
+		want["samples_v3"] += n
 	}
 	deadline := time.Now().Add(20 * time.Second)
 	for {
